@@ -140,7 +140,8 @@ def _dumpstruct(
     color: bool,
     output: str,
 ) -> str | None:
-    palette = []
+    # Without colors there is no palette at all (an empty one would still end every full line with a color code)
+    palette = [] if color else None
     colors = [
         (COLOR_RED, COLOR_BG_RED),
         (COLOR_GREEN, COLOR_BG_GREEN),
